@@ -315,9 +315,30 @@ def translate_savers(src_text):
     return out
 
 
+def translate_saver_options(src_text):
+    """[(save_* method, [keyword arguments besides the file name])] for every method registered in _savers"""
+    tree = ast.parse(src_text)
+    cls = [n for n in tree.body if isinstance(n, ast.ClassDef) and n.name == "Trajectory"][0]
+    meth = {n.name: n for n in cls.body if isinstance(n, ast.FunctionDef)}
+    ret = [x for x in ast.walk(meth["_savers"]) if isinstance(x, ast.Dict)][0]
+    names = []
+    for v in ret.values:
+        if v.attr not in names:
+            names.append(v.attr)
+    out = []
+    for nm in names:
+        a = meth[nm].args
+        if a.vararg or a.kwarg:
+            raise Untranslatable("%s takes *args/**kwargs" % nm)
+        out.append((nm, [x.arg for x in a.args[2:]] + [x.arg for x in a.kwonlyargs]))
+    return out
+
+
 def translate(ctx):
     with open(os.path.join(REPO, "mdtraj", "core", "trajectory.py")) as fh:
-        savers = translate_savers(fh.read())
+        txt = fh.read()
+    savers = translate_savers(txt)
+    opts = translate_saver_options(txt)
     ctx.write_gen("Gen/CellFormats.v", "\n".join([
         "(* GENERATED on every run by harness/props/C17.py:translate from Trajectory._savers and the save_* methods of",
         "   mdtraj/core/trajectory.py -- do not edit.  Which route each registered extension uses to hand the cell to its writer. *)",
@@ -326,6 +347,12 @@ def translate(ctx):
         "  [" + ";\n   ".join('("%s", %s)' % er for er in savers) + "].", "",
         "(* the hand-written table of MD.Cell.Formats describes exactly the formats the source registers *)",
         "Lemma format_table_matches_source : table_matches_source source_savers = true.",
+        "Proof. vm_compute. reflexivity. Qed.", "",
+        "(* the keyword arguments of the registered save_* methods: each is one of the options the table declares cell-neutral",
+        "   (and that the runs exercise) *)",
+        "Definition source_saver_options : list (string * list string) :=",
+        "  [" + ";\n   ".join('("%s", [%s])' % (nm, "; ".join('"%s"' % o for o in os_)) for nm, os_ in opts) + "].", "",
+        "Lemma saver_options_known : options_known source_saver_options = true.",
         "Proof. vm_compute. reflexivity. Qed.", ""]))
     path = os.path.join(REPO, "mdtraj", "utils", "unitcell.py")
     with open(path) as fh:
@@ -1002,9 +1029,21 @@ def saveload_check(ctx):
             continue
         ok = True
         for key, v in row.items():
-            cell, nf = key.split("/")
+            opt = None
+            if key.startswith("opt:"):
+                opt, cell, nf = key[4:].split("/")
+            else:
+                cell, nf = key.split("/")
+            if "unknown_option" in v:
+                ok = False
+                ctx.fail("save option %s of %s is not in the format table" % (opt, ext), {"saveload": ext, "option": opt}, observed=v,
+                         expected="Formats.cell_neutral_options lists every keyword Trajectory.save forwards",
+                         tags={"kind": "saveload-option-unknown", "format": ext, "explained_by": None})
+                continue
             e = expected_roundtrip(kind, cell)
             case = {"saveload": ext, "cell": cell, "frames": int(nf)}
+            if opt:
+                case["option"] = opt
             ctx.count(case, nontrivial=True, bucket="saveload/" + kind)
             bad = None
             if e is None:
@@ -1016,7 +1055,7 @@ def saveload_check(ctx):
                 bad = "cell presence after save/load: %s (expected complete cell: %s)" % (v, e)
             if bad:
                 ok = False
-                ctx.fail("save/load of %s does not follow the format table (%s)" % (ext, kind), case, observed=bad,
+                ctx.fail("save/load of %s%s does not follow the format table (%s)" % (ext, " with " + opt.split("=")[0] if opt else "", kind), case, observed=bad,
                          expected="Formats.roundtrip %s" % kind,
                          tags={"kind": "saveload-presence", "format": ext, "cell": cell, "explained_by": None})
         summary[ext] = "%s: %s" % (kind, "as tabulated" if ok else "DEVIATES")
